@@ -272,6 +272,84 @@ theorem callerIs_of_authAs {now : Int} {p : Provider} {m : C04.MonState} {id sec
           simpa [Const.AuthMethodPrivateKeyJWT] using hnpk
         simp [hn, hpk, hass, hty', hid, hcid, hsec, hs']
 
+/-! ### round 4b: the monitor's `callerIsCfg` (a provider whose JWTProfileVerifier may carry a custom subject check) -/
+
+/-- an assertion that meets the clauses WITH `sub = iss` meets them without -/
+theorem assertionOK_weaken {issuer : String} {ma off : Int} {b : Bool} {reg : List (String × JWK)} {t : Token} {now : Int} {j : Claims}
+    (h : C14.assertionOK issuer ma off true reg t now j = none) : C14.assertionOK issuer ma off b reg t now j = none := by
+  cases b
+  · unfold C14.assertionOK at h ⊢
+    split
+    · rename_i cl hcl; rw [hcl] at h; simp at h
+    · rename_i hacc
+      rw [hacc] at h
+      simp only [Option.map_eq_none_iff, List.find?_eq_none] at h ⊢
+      intro x hx
+      simp only [C14.claimClauses, List.mem_cons, List.mem_nil_iff, or_false] at hx
+      rcases hx with rfl | rfl | rfl | rfl | rfl | rfl
+      · exact h _ (by simp [C14.claimClauses])
+      · exact h _ (by simp [C14.claimClauses])
+      · exact h _ (by simp [C14.claimClauses])
+      · exact h _ (by simp [C14.claimClauses])
+      · exact h _ (by simp [C14.claimClauses])
+      · simp
+  · exact h
+
+/-- whatever subject check the provider's verifier carries: an assertion the code accepts meets the spec's clauses for the client
+    it names as ISSUER - signed with a key the storage holds for that client -, with `sub = iss` under the default check -/
+theorem assertionOK_of_verify_check {now : Int} {t : Token} {p : Provider} {f : Option (Claims → Go.R Unit)} {j : Claims}
+    (h : VerifyJWTAssertion now t { p.JWTProfileVerifier with CheckSubject := f } = .ok j) :
+    C14.assertionOK p.issuer p.jwtMaxAgeIAT p.jwtOffset f.isNone p.store.keyRegistry t now j = none := by
+  have := C14.c14_assertion_sound (v := { p.JWTProfileVerifier with CheckSubject := f }) (by rfl) h
+  simpa [Provider.JWTProfileVerifier] using this
+
+/-- ... hence proves that issuer to the monitor (`C04.provesIssuer`) -/
+theorem provesIssuer_of_assertionOK {now : Int} {t : Token} {p : Provider} {m : C04.MonState} {j : Claims} (hm : SameCfg m p)
+    (hs : C14.assertionOK p.issuer p.jwtMaxAgeIAT p.jwtOffset (!m.subjectCheckCustom) p.store.keyRegistry t now j = none) :
+    C04.provesIssuer m t now = some j.iss := by
+  obtain ⟨hcl, hissuer, hmax, hoff⟩ := hm
+  have hacc : C02.acceptedOK [] (C14.clientKeys p.store.keyRegistry j.iss) t j = none := by
+    unfold C14.assertionOK at hs
+    split at hs
+    · simp at hs
+    · assumption
+  obtain ⟨c, hc, heq⟩ := acceptedOK_payload hacc
+  have hiss : c.iss = j.iss := by
+    have := congrArg Claims.iss heq
+    simpa using this.symm
+  unfold C04.provesIssuer
+  rw [hc]
+  simp only []
+  rw [hissuer, hmax, hoff, hcl]
+  show (if (C14.assertionOK p.issuer p.jwtMaxAgeIAT p.jwtOffset (!m.subjectCheckCustom) p.store.keyRegistry t now c).isNone = true
+      then some c.iss else none) = some j.iss
+  rw [← assertionOK_congr heq, hs]
+  simp [hiss]
+
+/-- the model's authentication (default subject check) implies the monitor's `callerIsCfg` for the same client - whichever
+    configuration the monitor was told: an assertion accepted under `sub = iss` proves its issuer under any reading -/
+theorem callerIsCfg_of_authAs {now : Int} {p : Provider} {m : C04.MonState} {id secret ty : String} {t : Token} {c : OPClient}
+    {pr : C04.Presented} (hm : SameCfg m p) (hid : pr.clientID = id) (hsec : pr.secret = secret)
+    (hass : pr.assertion = if ty == Const.ClientAssertionTypeJWTAssertion then some t else none)
+    (h : AuthAs now p id secret ty t c) : C04.callerIsCfg m now c pr = true := by
+  unfold C04.callerIsCfg
+  split
+  · rename_i hcfg
+    simp only [Bool.and_eq_true] at hcfg
+    rcases h with ⟨hty, _, _, j, hv, hget, hauth⟩ | ⟨hty, hget, hrest⟩
+    · have hs := assertionOK_weaken (b := !m.subjectCheckCustom)
+        (by simpa using assertionOK_of_verify_check (f := none) (p := p) hv)
+      have := provesIssuer_of_assertionOK hm hs
+      obtain ⟨_, hcid⟩ := getClient_find hget
+      simp [hass, hty, this, hcid]
+    · -- a client that did not present an assertion is not registered for private_key_jwt
+      exfalso
+      have hpk : c.auth = "private_key_jwt" := by simpa using hcfg.2
+      rcases hrest with hnone | ⟨hnpk, _, _⟩
+      · rw [hpk] at hnone; exact absurd hnone (by decide)
+      · exact hnpk hpk
+  · exact callerIs_of_authAs hm hid hsec hass h
+
 end FlowObs
 
 /-! ## The token endpoint's code-grant and refresh-grant paths on both routers -/
@@ -736,8 +814,8 @@ theorem judge_ok {now : Int} {s : Flow.St} {o : ObsState} (h : Inv04 s o) {req :
     rcases hauth with ⟨_, _, _, j, _, hget, _⟩ | ⟨_, hget, _⟩
     · rw [hcl, ← hcid]; exact (getClient_find hget).1
     · rw [hcl, ← hcid]; exact (getClient_find hget).1
-  have hcaller : C04.callerIs o.m04 now c (presentedCode req) = true :=
-    callerIs_of_authAs (pr := presentedCode req) h.cfg rfl rfl rfl hauth
+  have hcaller : C04.callerIsCfg o.m04 now c (presentedCode req) = true :=
+    callerIsCfg_of_authAs (pr := presentedCode req) h.cfg rfl rfl rfl hauth
   have hgr : c.grants.contains "authorization_code" = true := by simpa [Const.GrantTypeCode] using hgrant
   have hredb : (req.RedirectURI != a.redirectURI) = false := by simp [hred]
   -- every single token of the response carries the request's values (the authenticated client IS the request's client)
